@@ -139,3 +139,71 @@ def fingerprint(lib):
     except Exception as e:
         scheme = dict(unavailable=type(e).__name__)
     return dict(groups=groups, uq=uq, scheme=scheme)
+
+
+_rawcp = {}
+CP_UNIT = {'cal/(mol*K)': 'cal/mol/K', 'cal/(mol K)': 'cal/mol/K', 'cal/mol/K': 'cal/mol/K', 'J/(mol*K)': 'J/mol/K', 'J/(mol K)': 'J/mol/K',
+           'J/mol/K': 'J/mol/K', 'kJ/(mol*K)': 'kJ/mol/K', 'kJ/(mol K)': 'kJ/mol/K', 'kcal/(mol*K)': 'kcal/mol/K', 'kcal/(mol K)': 'kcal/mol/K',
+           'eV/K': 'eV/K'}
+
+
+def _split_qty(v, default_unit):
+    """'300 K' / 300 / '6.19 cal/(mol*K)' -> (number, unit string or default)"""
+    if isinstance(v, (int, float)):
+        return float(v), default_unit
+    txt = str(v).strip()
+    parts = txt.split(None, 1)
+    try:
+        return float(parts[0]), (parts[1].strip() if len(parts) > 1 else default_unit)
+    except ValueError:
+        return None, None
+
+
+def raw_cp_tables(name):
+    """the heat-capacity tables AS WRITTEN in the data files (plain YAML reading along the include graph, no pgradd code):
+    {library key: {'rows': [(T in K, value, 'nd' | unit-string-of-the-gas-constant-table | None)], 'duplicates': [(file, T)], 'files': [...]}}"""
+    if name in _rawcp:
+        return _rawcp[name]
+    out = {}
+    base = os.path.join(data_dir(), name)
+    todo = [os.path.join(base, 'library.yaml')]
+    seen = set()
+    while todo:
+        path = todo.pop(0)
+        if path in seen or not os.path.exists(path):
+            continue
+        seen.add(path)
+        with open(path) as f:
+            d = yaml.safe_load(f)
+        if not isinstance(d, dict):
+            continue
+        for inc in d.get('include') or []:
+            todo.append(os.path.join(os.path.dirname(path), inc))
+        units = d.get('units') or {}
+        for sect in ('groups', 'other_descriptors'):
+            for k, entry in (d.get(sect) or {}).items():
+                key = canonical_group_name(str(k)) if sect == 'groups' else str(k)
+                tc = (entry or {}).get('thermochem') if isinstance(entry, dict) else None
+                if not isinstance(tc, dict):
+                    continue
+                for field, nd in (('Cp_data', False), ('ND_Cp_data', True)):
+                    rows = tc.get(field)
+                    if not rows:
+                        continue
+                    rec = out.setdefault(key, dict(rows=[], duplicates=[], files=[]))
+                    rec['files'].append(os.path.relpath(path, base))
+                    seen_T = set()
+                    for row in rows:
+                        if not isinstance(row, (list, tuple)) or len(row) != 2:
+                            continue
+                        T, tu = _split_qty(row[0], units.get('temperature', 'K'))
+                        v, vu = (_split_qty(row[1], None) if nd else _split_qty(row[1], units.get('molar heat capacity')))
+                        if T is None or v is None or tu not in ('K', 'kK', 'mK'):
+                            continue
+                        T = T * {'K': 1.0, 'kK': 1000.0, 'mK': 0.001}[tu]
+                        if T in seen_T:
+                            rec['duplicates'].append((os.path.relpath(path, base), T))
+                        seen_T.add(T)
+                        rec['rows'].append((T, v, 'nd' if nd else CP_UNIT.get(str(vu))))
+    _rawcp[name] = out
+    return out
